@@ -105,6 +105,9 @@ def canon(v):
         return str(v)
 
 
+_RETRIES = 0
+
+
 def measure(pipeline, n, limit=10):
     src = Source()
     L = LazyList(src, isinf=True)
@@ -124,6 +127,10 @@ def o_lazy(inp):
         try:
             out, pulls, (a, b) = measure(pipeline, n)
         except Timeout:
+            global _RETRIES
+            _RETRIES += 1
+            if _RETRIES > 3:
+                raise
             # a busy machine can stall a worker: believed only if it does not arrive within a minute either (the source's own
             # budget of 20000 pulls ends a real runaway long before that)
             out, pulls, (a, b) = measure(pipeline, n, limit=60)
